@@ -13,7 +13,8 @@ RULE = ("xeofs.preprocessing.Whitener and PCA fitted directly on centred (sample
         "unrelated data of the same width and used in both directions before the fit under test; non-trivial: n > p >= 1 and a numeric comparison was made; "
         "distinct by input hash")
 PARTIAL = ["the real power lam^((alpha-1)/2) is an oracle: for rational alpha = a/b its defining relation d^(2b) lam^(b-a) = 1 is a premise of "
-           "C16_whitened_cov_power_law and is re-checked in Coq on every case; uniqueness of the positive b-th root (so that d^2 lam IS lam^alpha) is not proved",
+           "C16_whitened_cov_power_law and is re-checked in Coq on every case; at the real instance the positive answer is unique and d^2 lam is the real "
+           "power lam^(a/b) (C16_power_oracle_unique, C16_whitened_eig_is_real_power); irrational alpha is out of reach of the relation",
            "the stored inverse is modelled as V diag(1/d) V^H (the exact inverse, C16_T_Tinv_inverse); np.linalg.inv is compared with it numerically",
            "'leading' principal subspace: C16_pca_spans_leading proves the columns are eigenvectors for the FIRST k singular values of the oracle's list; "
            "that the list is descending is the SVD oracle's property (checked numerically, and proved for the EOF model in C01_descending_nonneg)",
